@@ -46,3 +46,15 @@ claim("C04", "model-based property-based testing over generated operation histor
 claim("C12", "metamorphic property-based testing (Hypothesis): slicing commutes with generated operations",
       "op(objects).slice(idx') is compared with op(sliced objects) for measures/densities (12+6 operations incl. integrals with per-component coefficients), products (multiply/hadamard with both batches, layout i*R2+j), all conditional classes incl. NN-control (10 operations, batch on the conditional or on p(x), layout r*N+n) with idx arrays containing repetitions, negatives, permutations and singletons; update(idx,d) against numpy assignment.",
       _NOTE, "DESIGN.md §2 C12")
+claim("C16", "property-based testing (Hypothesis); two-resolution Gauss-Hermite oracle (feature models) and independent closed forms + scipy quad (heteroscedastic)",
+      "Marginal / joint / conditional moment-matched transformations of RBF and squared-exponential feature models and the four heteroscedastic classes (non-zero offsets, Da=Dy and Da>Dy, batched p(x)) are compared with E m, E S + Cov m, Cov(y,x) of the object's own p(y|x) (m, S re-computed in numpy from the documented unit-height kernels / links and checked against cond(x)); the conditional transformation with the Gaussian conditional of that joint.",
+      _NOTE, "DESIGN.md §2 C16")
+claim("C17", "property-based testing (Hypothesis); oracle = adaptive quadrature of the true expectation (exact 1-D reductions) ",
+      "cond(x) mean/covariance/precision/log-det against numpy; integrate_log_conditional_y (single and paired (p_x,y)) against E_p(x) ln p(y|x) by piecewise scipy quad (Dx=1 any Dk; Dx>=2 with one unit via the exact reduction to h; Dx=2,Dk=2 smooth links via two-resolution Gauss-Hermite): never above the truth (exp, cosh-1, ReLU), equal to it (step); tightness by the decay ratio of the gap under shrinking input weights and exact zero gap at zero weights (exp, cosh-1). Da>Dy and the singular (g,h) case are listed findings.",
+      _NOTE, "DESIGN.md §2 C17")
+claim("C19", "property-based testing (Hypothesis); structural oracle with statistical fallback",
+      "sample(key,n): shape, determinism in the key, and the whitened draws of each component reproduce the key's standard-normal stream as a multiset (pairing of Cholesky factors with components); a sampler that is structurally different is judged by a 6-standard-error battery at n=200000 (mean, covariance, cross-component and lag-1 correlation, KS), which also runs unconditionally on a few cases.",
+      _NOTE, "DESIGN.md §2 C19")
+claim("C20", "property-based testing (Hypothesis) against scipy adaptive quadrature",
+      "Truncated measures (scalar / per-component, one- and two-sided, near-mode and far-tail limits within 12 sigma): evaluation inside/outside/at the limits, integrals of 1, x, x^2, x^k (k 0..6) against quad of x^k u(x), additivity over adjacent intervals, and both normalised variants (get_density(), direct construction on normalised and un-normalised measures): evaluation, unit mass, mean, variance.",
+      _NOTE, "DESIGN.md §2 C20")
